@@ -294,7 +294,7 @@ pub fn run(ctx: &mut Ctx) {
         let mut r = rng.fork(idx as u64);
         if ctx.out.wants(idx) { new_case(ctx, idx, &mut r); }
     }
-    let nseq = ctx.n(15, 300);
+    let nseq = ctx.n(24, 300);
     for k in 0..nseq {
         let idx = 100 + k;
         let mut r = rng.fork(idx as u64);
